@@ -284,6 +284,63 @@ func checkC18(w *World, r *Report) {
 						return false, false
 					})
 					r.Check(MustPass(f, edges, fs.Store.Block()), "C18.guard", construct+": only for pools that paid", pos, "recorded under a positivity test of the pool's own amount", "an event is recorded for a pool from which nothing was withdrawn")
+					// the converse: a pool that paid is reported - assuming the pool's own amount positive, no live path of the
+					// iteration goes round the event (a second condition in front of it, e.g. on the lock time, would leave a
+					// withdrawal unreported)
+					positive := func(base ssa.Value) (bool, bool) {
+						c, isC := base.(*ssa.Call)
+						if !isC {
+							return false, false
+						}
+						n := callName(c.Common())
+						a := c.Common().Args
+						switch {
+						case strings.HasSuffix(n, "math.Int.IsPositive") && a[0] == inc:
+							return true, true
+						case strings.HasSuffix(n, "math.Int.GT") && a[0] == inc && isZeroIntValue(a[1]):
+							return true, true
+						case strings.HasSuffix(n, "math.Int.IsZero") && a[0] == inc, strings.HasSuffix(n, "math.Int.IsNegative") && a[0] == inc:
+							return false, true
+						case strings.HasSuffix(n, "math.Int.LTE") && a[0] == inc && isZeroIntValue(a[1]), strings.HasSuffix(n, "math.Int.Equal") && a[0] == inc && isZeroIntValue(a[1]):
+							return false, true
+						}
+						return false, false
+					}
+					live := ReachUnder(f, positive)
+					evB := fs.Store.Block()
+					loops := loopsAround(evB)
+					if len(loops) > 0 {
+						l := loops[len(loops)-1]
+						round := ""
+						seen := map[*ssa.BasicBlock]bool{}
+						var stack []*ssa.BasicBlock
+						for si, sc := range l.Header.Succs {
+							if l.In[sc] && sc != l.Header && live.Edges[Edge{l.Header, si}] {
+								stack = append(stack, sc)
+							}
+						}
+						for len(stack) > 0 {
+							b := stack[len(stack)-1]
+							stack = stack[:len(stack)-1]
+							if seen[b] || b == evB {
+								continue
+							}
+							seen[b] = true
+							for si, sc := range b.Succs {
+								if !live.Edges[Edge{b, si}] {
+									continue
+								}
+								if sc == l.Header {
+									round = w.Pos(lastPos(b))
+									continue
+								}
+								if l.In[sc] {
+									stack = append(stack, sc)
+								}
+							}
+						}
+						r.Check(round == "", "C18.guard", construct+": every pool that paid is reported", pos, "with the pool's own amount positive no path of the iteration goes round the event", "a pool from which coins were withdrawn can go unreported: with a positive amount the iteration can still skip the event (next iteration reached from "+round+")")
+					}
 				}
 			case "NewVestingAccountFromVestingPool":
 				x := intOfAmountString(fs.Store.Val)
